@@ -246,6 +246,69 @@ theorem extractLoop_ok (values : List RawValue) (hv : values.length ≤ 65535) (
       have := hsorted.1 q hq
       exact ⟨by omega, q2, by rw [place_length]; exact q3⟩
 
+/-- On a table strictly ascending by marker index, if some marker is at or beyond the number of bound values, the
+loop stops with `NoPkIndexValue` for the SMALLEST such marker (the first one it meets). -/
+theorem extractLoop_missing (values : List RawValue) (hv : values.length ≤ 65535) (ps : List PkIndex)
+    (off : Nat) (acc : List (Option (List UInt8)))
+    (hsorted : ps.Pairwise (fun a b => a.index < b.index))
+    (hall : ∀ p ∈ ps, off ≤ p.index ∧ p.sequence < acc.length)
+    (hbad : ∃ p ∈ ps, values.length ≤ p.index) :
+    ∃ m, m ∈ ps ∧ values.length ≤ m.index ∧ (∀ q ∈ ps, values.length ≤ q.index → m.index ≤ q.index) ∧
+      extractLoop values.length ps (values.drop off) off acc = .error (.noPkIndexValue m.index values.length) := by
+  induction ps generalizing off acc with
+  | nil => obtain ⟨p, hp, _⟩ := hbad; cases hp
+  | cons p ps ih =>
+    obtain ⟨h1, h3⟩ := hall p List.mem_cons_self
+    rw [List.pairwise_cons] at hsorted
+    by_cases hp : values.length ≤ p.index
+    · -- `p` is the first (hence smallest) missing marker
+      refine ⟨p, List.mem_cons_self, hp, ?_, ?_⟩
+      · intro q hq _
+        rcases List.mem_cons.mp hq with rfl | hq'
+        · exact Nat.le_refl _
+        · exact Nat.le_of_lt (hsorted.1 q hq')
+      · unfold extractLoop
+        rw [if_neg (by omega)]
+        have : (values.drop off).drop (p.index - off) = [] := by
+          rw [List.drop_drop]; exact List.drop_of_length_le (by omega)
+        rw [this]
+    · have h2 : p.index < values.length := by omega
+      have hbad' : ∃ q ∈ ps, values.length ≤ q.index := by
+        obtain ⟨q, hq, hql⟩ := hbad
+        rcases List.mem_cons.mp hq with rfl | hq'
+        · exact absurd hql hp
+        · exact ⟨q, hq', hql⟩
+      obtain ⟨m, hm, hml, hmin, hres⟩ := ih (p.index + 1) (place values acc p) hsorted.2
+        (by
+          intro q hq
+          obtain ⟨_, q3⟩ := hall q (List.mem_cons_of_mem _ hq)
+          have := hsorted.1 q hq
+          exact ⟨by omega, by rw [place_length]; exact q3⟩) hbad'
+      refine ⟨m, List.mem_cons_of_mem _ hm, hml, ?_, ?_⟩
+      · intro q hq hql
+        rcases List.mem_cons.mp hq with rfl | hq'
+        · exact absurd hql hp
+        · exact hmin q hq' hql
+      · unfold extractLoop
+        rw [if_neg (by omega)]
+        have hdrop : (values.drop off).drop (p.index - off) = values[p.index] :: values.drop (p.index + 1) := by
+          rw [List.drop_drop]
+          have : off + (p.index - off) = p.index := by omega
+          rw [this]
+          exact List.drop_eq_getElem_cons h2
+        rw [hdrop]
+        have hget : values.getD p.index .null = values[p.index] := by
+          simp [List.getD, List.getElem?_eq_getElem h2]
+        have hplace : store acc p.sequence values[p.index] = some (place values acc p) := by
+          unfold place store
+          rw [hget]
+          split <;> simp_all
+        simp only []
+        rw [hplace]
+        simp only []
+        rw [if_neg (by omega)]
+        exact hres
+
 theorem foldl_place_untouched (values : List RawValue) (ps : List PkIndex) (acc : List (Option (List UInt8)))
     (s : Nat) (h : ∀ q ∈ ps, q.sequence ≠ s) : (ps.foldl (place values) acc)[s]? = acc[s]? := by
   induction ps generalizing acc with
